@@ -74,6 +74,35 @@ fn air_conjectured_security_monotone_contract() {
     assert!(b >= a);
 }
 
+// arbitrary total functions for libm: if the integer arithmetic around them cannot panic for *any*
+// float results, it cannot panic for the real ones (CBMC has no faithful model of log2/powf/sqrt)
+pub fn any_f64_1(_x: f64) -> f64 {
+    kani::any()
+}
+pub fn any_f64_2(_x: f64, _y: f64) -> f64 {
+    kani::any()
+}
+
+/// proven_security_protocol_for_m is total: for every options set, field size, trace length and
+/// proximity parameter, and whatever the transcendental functions return, no integer underflow /
+/// overflow / panic occurs (the u64 subtractions are guarded)
+#[kani::proof]
+#[kani::stub(log2, any_f64_1)]
+#[kani::stub(sqrt, any_f64_1)]
+#[kani::stub(ceil, any_f64_1)]
+#[kani::stub(powf, any_f64_2)]
+fn air_proven_security_total_contract() {
+    let (o, _q, lb, _g, _deg) = any_options();
+    let field_bits: u32 = kani::any();
+    kani::assume(field_bits <= 2040);
+    let log_n: u32 = kani::any();
+    kani::assume(log_n >= 3 && log_n <= 32 && log_n + lb <= 32);
+    let m: usize = kani::any();
+    kani::assume(m >= 3 && m <= 1000);
+    let r = proven_security_protocol_for_m(&o, field_bits, 1usize << log_n, m);
+    let _ = r;
+}
+
 #[kani::proof]
 fn air_proof_canary_must_fail() {
     let (o, _q, _lb, _g, _deg) = any_options();
